@@ -182,7 +182,7 @@ def check_map_re(model: Model, report: Report) -> None:
     n_cells = 0
     import itertools
 
-    for length in (1, 2, 3):
+    for length in ((1, 2, 3, 4) if report.tier == "thorough" else (1, 2, 3)):
 
         def body(it: Interp, seq: Any) -> Any:
             chars = []
